@@ -20,6 +20,7 @@ LEVEL_TEXT = (
     "raise SyntaxError and nothing else. Sampled, not exhaustive. A small enumerated part puts literals at the edge of the "
     "token rules (numerals of 4299-6000 digits; quoted strings with undecodable escapes) in scalar, list and tuple "
     "positions: an integer or a syntax error, resp. a syntax error or the literal content -- never another kind of value."
+    ' Two further parts: a process-history part (a fresh Parser returns the same tree and version for a text whatever files of the other syntax were parsed in between) and, in renderings, bare EEMS 2.0 commands, the opening parenthesis on a later line, quoted strings spanning physical lines, bare-CR line ends and files ending in a comment without a line break.'
 )
 LEVEL_NOTE = (
     "Excluded by construction (docs and pinned tests disagree or are silent): lone backslashes inside "
